@@ -127,6 +127,32 @@ def match_known(f, case, verdict):
     return f.get("id") == "withdrawn-collision" and verdict.get("clause", "")[:2] in ("P2", "P3") and verdict.get("witness") is True
 
 
+def boundary_scenarios(tier, seed):
+    """Random addresses on byte boundaries of the 24-bit search address, in pairs where finding one unit is followed by
+    a search for a unit just above it (same / next low byte, next middle byte, next high byte): whatever the sequence
+    remembers from one search must still be true in the next."""
+    rng = random.Random(seed * 31 + 7)
+    bs = (0x00, 0x01, 0x7F, 0x80, 0xFE, 0xFF)
+    out = []
+    for h in bs:
+        for m in bs:
+            for lo in bs:
+                x = (h << 16) | (m << 8) | lo
+                ys = {x + 1, x + 2, (x | 0xFF) + 1, (x | 0xFF) + 0x81, (x | 0xFFFF) + 1, (x | 0xFFFF) + 0x8001, 0xFFFFFE, 0xFFFFFF}
+                ys = sorted(y for y in ys if x < y <= 0xFFFFFF)
+                if tier == "quick":
+                    ys = [y for j, y in enumerate(ys) if lo == 0xFF or (h + m + lo + j) % 5 == 0][:3]
+                for y in ys:
+                    third = rng.choice([None, 0x123456, x // 2, 0])
+                    final = [x, y] + ([third] if third is not None and third not in (x, y) else [])
+                    rng.shuffle(final)
+                    n = len(final)
+                    out.append({"shorts": [255] * n, "storeOK": [True] * n, "permitted": list(range(64)),
+                                "readdress": rng.random() < 0.5, "dryrun": False, "draws": [final], "maxrounds": 1,
+                                "src": "boundary:%06x:%06x" % (x, y)})
+    return out
+
+
 def run(tier, seed, replay=None):
     out = core.Outcome("C07", tier, seed)
     out.is_replay = replay is not None
@@ -164,6 +190,7 @@ def run(tier, seed, replay=None):
             scen += ts
             npy = 300 if tier == "quick" else 12000
             scen += [py_scenario(seed, k) for k in range(npy)]
+            scen += boundary_scenarios(tier, seed)
         else:
             scen = [replay["case"]["scenario"]]
         recs = core.pmap(run_scenario, scen, chunksize=8)
